@@ -30,7 +30,7 @@ import (
 )
 
 type step struct {
-	Op    string `json:"op"`    // headers | nodes | blocks | restart | junknode | junkheader | junkblock | dupnodes
+	Op    string `json:"op"`    // headers | nodes | mixednodes | blocks | restart | junknode | junkheader | junkblock | dupnodes
 	N     int    `json:"n"`     // batch size
 	Order string `json:"order"` // asc | desc | rnd (which of the requested nodes come first)
 }
@@ -272,7 +272,7 @@ func runWorld(t *testing.T, res *vh.Result, tr *vh.Trace, wi int, sched []step, 
 			}
 			e, pan = guarded(func() error { return mod.AddHeaders(hs...) })
 			ev["expect_ok"] = true
-		case "nodes", "dupnodes":
+		case "nodes", "dupnodes", "mixednodes":
 			if ph != "mpt" {
 				return true
 			}
@@ -302,6 +302,24 @@ func runWorld(t *testing.T, res *vh.Result, tr *vh.Trace, wi int, sched []step, 
 				}
 				lastNodes = batch
 				ev["expect_ok"] = true
+				if s.Op == "mixednodes" && len(batch) > 0 {
+					// the same message ends with something that is not the node it pretends to be: what was wanted and
+					// correct before it must not be lost (nor be believed stored when it is not)
+					var junk []byte
+					switch r.Intn(3) {
+					case 0:
+						junk = []byte{0xff, 0x01}
+					case 1:
+						junk = bytes.Clone(batch[0][:len(batch[0])/2])
+					default:
+						junk = []byte{byte(mpt.LeafT), 3, 1, 2, byte(r.Intn(256))}
+					}
+					batch = append(bytes2(batch), junk)
+					lastNodes = batch[:len(batch)-1]
+					ev["expect_ok"] = false
+					ev["junk"] = true
+					ev["mixed"] = len(batch) - 1
+				}
 			}
 			e, pan = guarded(func() error { return mod.AddMPTNodes(batch) })
 		case "blocks":
@@ -412,6 +430,8 @@ func runWorld(t *testing.T, res *vh.Result, tr *vh.Trace, wi int, sched []step, 
 				s = step{Op: "junknode"}
 			case 1:
 				s = step{Op: "dupnodes"}
+			case 2, 3:
+				s = step{Op: "mixednodes", N: 1 + r.Intn(6), Order: []string{"asc", "desc", "rnd"}[r.Intn(3)]}
 			}
 		case "blocks":
 			s = step{Op: "blocks", N: 1 + r.Intn(3)}
@@ -468,6 +488,8 @@ func runWorld(t *testing.T, res *vh.Result, tr *vh.Trace, wi int, sched []step, 
 	}
 	res.Inc("trie_nodes", len(w.nodes))
 }
+
+func bytes2(b [][]byte) [][]byte { return append([][]byte{}, b...) }
 
 func TestDriver(t *testing.T) {
 	res := vh.NewResult()
